@@ -70,6 +70,8 @@ def owners(clause):
         return ["C08"]
     if a == "frontier":
         return ["C18"]
+    if a == "reader":
+        return ["C08"]
     if a in ("exc", "err_expected"):
         return ["C05"]
     return ["C05"]
